@@ -1,4 +1,5 @@
 import MioModel.Lemmas.Net
+import MioModel.Props.C12
 import MioModel.Lemmas.Stream
 /-! # C13 — send() status is truthful and size limits match max_message_size() -/
 namespace Mio.C13
@@ -74,6 +75,15 @@ theorem udp_size_limit_exact (len : Nat) (osOk : Bool) :
   by_cases h : len > udpMaxLocalPayloadLen
   · simp [h]; omega
   · cases osOk <;> simp [h] <;> omega
+
+/-- the same on the full UDP model M8, for both address families (the kernel's own limit is 65507 over
+IPv4 but 65527 over IPv6: only the adapter's check makes the limit the declared one there) -/
+theorem udp_size_limit_exact_m8 (w : Mio.Udp.World) (h : Mio.Udp.Reachable w) (ep : Mio.Udp.Endpoint)
+    (s : Mio.Udp.Sock) (data : Bytes) (hs : w.socks[ep.rid]? = some s) (hk : s.kind ≠ .raw) :
+    ((Mio.Udp.send w ep data).2 = .maxPacketSizeExceeded ↔ data.length > udpMaxLocalPayloadLen) ∧
+    ((Mio.Udp.send w ep data).2 = .sent ↔ data.length ≤ udpMaxLocalPayloadLen) ∧
+    (data.length > udpMaxLocalPayloadLen → (Mio.Udp.send w ep data).1.socks = w.socks) :=
+  Mio.C12.size_status w (Mio.C12.kernel_admits_declared_maximum w h) ep s data hs hk
 
 /-! Non-vacuity: a send to a pending connection, then to the established one, then after removal. -/
 example : ∃ s, run {} [.connect 1, .send 0 .sent, .pollRemote 0 false, .pending .ready, .beginReceive 0 false,
